@@ -75,6 +75,22 @@ func c02Recipes(tier string) []ref.CharRecipe {
 			}
 		}
 	}
+	// long passwords over a two-character alphabet with a requirement: the
+	// complete first-candidate cell (2^16 leaves) plus the retries of its
+	// rejected candidates (behaviour that only starts at a length threshold)
+	out = append(out,
+		ref.CharRecipe{Length: 16, AllowChars: "a", RequireSets: []string{"0"}},
+		ref.CharRecipe{Length: 9, AllowChars: "ab", RequireSets: []string{"0"}},
+	)
+	if tier == "thorough" {
+		out = append(out,
+			ref.CharRecipe{Length: 17, AllowChars: "a", RequireSets: []string{"0"}},
+			ref.CharRecipe{Length: 18, AllowChars: "a", RequireSets: []string{"0"}},
+			ref.CharRecipe{Length: 20, AllowChars: "a", RequireSets: []string{"0"}},
+			ref.CharRecipe{Length: 11, AllowChars: "ab", RequireSets: []string{"0"}},
+			ref.CharRecipe{Length: 8, AllowChars: "abc", RequireSets: []string{"0", "a"}},
+		)
+	}
 	// class-sized cells
 	out = append(out,
 		ref.CharRecipe{Length: 1, Allow: ref.Digits},
@@ -135,6 +151,11 @@ func c02Recipe(c *core.Ctx, r ref.CharRecipe) {
 	}
 	if cell.Int64() > 700 {
 		attempts = 1
+		// few rejected candidates: their retries are cheap to explore
+		rej := new(big.Int).Sub(cell, count)
+		if rej.IsInt64() && rej.Int64()*cell.Int64() <= 600000 {
+			attempts = 2
+		}
 	}
 	if c.Thorough() && cell.Int64() <= 4096 && count.Cmp(cell) != 0 {
 		attempts = 2
@@ -201,7 +222,9 @@ func c02Recipe(c *core.Ctx, r ref.CharRecipe) {
 	c.Count("distinct_outputs", int64(len(outs)))
 	c.Sample(map[string]interface{}{"recipe": lit, "alphabet": ab, "leaves": st.Leaves, "valid_strings": count.String(), "mass_each": first.RatString(), "cut_mass": d.CutMass.RatString(), "candidates_deep": attempts})
 	// F2: outcome-only dependence (lifted / rejected words), one deviation
-	f2(c, r, key, lit)
+	if cell.Int64() <= 5000 {
+		f2(c, r, key, lit)
+	}
 }
 
 // keyChars recovers the characters of an all-single-character-atom token key.
@@ -234,6 +257,9 @@ func mustJSON(v interface{}) string {
 }
 
 func c02Run(c *core.Ctx) {
+	if !charPairs(c) {
+		return
+	}
 	for _, r := range c02Recipes(c.Tier) {
 		// recipes that differ only in their required sets run in the same
 		// worker process, one after the other, so that state leaking from
